@@ -41,6 +41,7 @@ type Profile struct {
 	SvcAnn         []annChoice
 	GlobalCM       bool // create the global ConfigMap
 	GlobalKeys     []annChoice
+	GlobalAlways   map[string]string // keys present in every version of the global ConfigMap
 	Pods           bool
 	MissingRefs    bool // ingress may reference missing services/secrets
 	MaxReady       int
@@ -518,6 +519,9 @@ func (g *G) genWorld() {
 				cm.Data[k.Key] = g.pick("globalval", k.Values)
 			}
 		}
+		for k, v := range g.P.GlobalAlways {
+			cm.Data[k] = v
+		}
 		g.add(cm)
 	}
 	for _, ns := range g.P.NS {
@@ -668,6 +672,9 @@ func (g *G) genOp(kinds []string) (world.Op, bool) {
 			if g.chance("globalkey", 50) {
 				n.Data[k.Key] = g.pick("globalval", k.Values)
 			}
+		}
+		for k, v := range g.P.GlobalAlways {
+			n.Data[k] = v
 		}
 		if cur == nil {
 			op = world.Op{Op: "create", Obj: n}
@@ -1102,6 +1109,48 @@ func genHistory(t *rapid.T, p Profile, params ctlsim.Params, kinds []string, max
 }
 
 // genHistoryX optionally adds the rich extras (CA secrets, pods of the endpoints, tcp ConfigMap) to the initial world.
+// globalFlip (8% of the batches, when the profile changes the global ConfigMap and one of its keys has two values):
+// an update of the global ConfigMap that changes one key, and the update that restores the former content.
+func (g *G) globalFlip() []world.Op {
+	if !g.P.GlobalCM || len(g.P.GlobalKeys) == 0 || !g.chance("globalflip", 8) {
+		return nil
+	}
+	cur := g.W.Get(world.KConfigMap, world.GlobalCM)
+	if cur == nil {
+		return nil
+	}
+	k := g.P.GlobalKeys[g.intn("flipkey", 0, len(g.P.GlobalKeys)-1)]
+	if len(k.Values) < 2 {
+		return nil
+	}
+	mut := cur.Clone()
+	if mut.Data == nil {
+		mut.Data = map[string]string{}
+	}
+	if mut.Data[k.Key] == k.Values[0] {
+		mut.Data[k.Key] = k.Values[1]
+	} else {
+		mut.Data[k.Key] = k.Values[0]
+	}
+	back := cur.Clone()
+	pair := []world.Op{{Op: "update", Obj: mut}, {Op: "update", Obj: back}}
+	for _, op := range pair {
+		for _, av := range g.P.Avoid {
+			if isKnownSig(av.Sig) && av.Pred(g.W, op) {
+				return nil
+			}
+		}
+	}
+	var out []world.Op
+	for _, op := range pair {
+		if _, _, err := g.W.Apply(op); err != nil {
+			panic(err)
+		}
+		out = append(out, world.Op{Op: op.Op, Obj: op.Obj.Clone()})
+	}
+	return out
+}
+
 func genHistoryX(t *rapid.T, p Profile, params ctlsim.Params, kinds []string, maxBatches, maxOps int, extras bool) HistCase {
 	avoidParams = params
 	g := newG(t, p)
@@ -1118,6 +1167,15 @@ func genHistoryX(t *rapid.T, p Profile, params ctlsim.Params, kinds []string, ma
 	}
 	nb := g.intn("nbatches", 1, maxBatches)
 	for b := 0; b < nb; b++ {
+		if flip := g.globalFlip(); len(flip) == 2 && b+1 < nb {
+			// one global option changes and is set back by the next batch: two full syncs that leave everything else as it was
+			for _, op := range flip {
+				c.Batches = append(c.Batches, []world.Op{op})
+				c.Split = append(c.Split, -1)
+			}
+			b++
+			continue
+		}
 		nops := g.intn("nops", 1, maxOps)
 		ops := g.rotateTogether()
 		if len(ops) > 0 {
